@@ -10,6 +10,11 @@ import (
 // point of view), so that floors can detect a generator that stopped producing them.
 func countEvidence(res *fw.Result, L *Lay, verticalCompared bool) {
 	n := L.Node
+	// feature combinations that used to trigger a (now fixed, or still open) defect: counted so that
+	// the floors notice if the re-opened sub-domains stop being generated
+	for _, t := range L.Triggers {
+		res.Count("domain_"+t, 1)
+	}
 	if L.AutoWidth && L.ClampedW == 0 {
 		res.Count("h_auto_width", 1)
 	}
